@@ -25,6 +25,7 @@ from __future__ import annotations
 import ast
 import importlib.util
 import logging
+import re
 import subprocess
 import sys
 from typing import List, Optional, Set, Tuple
@@ -223,8 +224,30 @@ def sort_imports(code: str, *, line_length: int = _LINE_LENGTH) -> str:
         logger.debug("isort unavailable; leaving import order untouched")
         return code
 
+    # 🧭 Pin the section of the generated logic modules (`<machine>_logic`).
+    #    Left to itself isort decides by looking for the module on disk: a
+    #    runner was grouped one way on the first generation (its logic module
+    #    not written yet, so "third party") and another way on the next one
+    #    ("first party", once the file existed in the working directory). The
+    #    output was not reproducible and `--check` reported drift on code that
+    #    had just been generated. The first-generation layout is the one that
+    #    has always been emitted, so that is the one pinned.
+    logic_modules = sorted(
+        set(
+            re.findall(
+                r"^\s*(?:import|from)\s+([A-Za-z_][A-Za-z0-9_]*_logic)\b",
+                code,
+                flags=re.MULTILINE,
+            )
+        )
+    )
     try:
-        return isort.code(code, profile="black", line_length=line_length)
+        return isort.code(
+            code,
+            profile="black",
+            line_length=line_length,
+            known_third_party=logic_modules,
+        )
     except Exception as exc:  # noqa: BLE001 — cosmetic step, never fatal
         logger.debug("isort declined (%s); leaving import order", exc)
         return code
